@@ -70,6 +70,17 @@ PROPS = {
                 histories_quick=400, histories_thorough=8000),
 }
 
+# Textgrid-level part of a property: (map ops, edit ops, clause prefixes that belong to the property)
+TG_PARTS = {
+    "C06": ([], ["cropTg"], ["C06_", "C12_tierwise_", "C12_crop_"]),
+    "C07": ([], ["eraseTg"], ["C07_", "C12_tierwise_", "C12_erase_"]),
+    "C08": ([], ["spaceTg"], ["C08_", "C12_tierwise_", "C12_space_"]),
+    "C09": ([], ["editTg", "appendTg"], ["C09_", "C12_tierwise_"]),
+    "C10": ([], ["mergeTg"], ["C10_"]),
+    "C13": (["addTier", "removeTier", "renameTier", "replaceTier"],
+            ["cropTg", "eraseTg", "spaceTg", "editTg", "appendTg", "mergeTg", "newTg"], ["C13_"]),
+}
+
 MC_INVARIANTS = ["NoFail", "RecvWF", "EmitInv"]
 MC_PROPERTIES = ["CopyOpsPure", "FailedMutatorNoChange", "ArgNeverChanges"]
 
@@ -386,6 +397,13 @@ def check(prop, tier):
         for ev in events[:2] + events[nv * len(plans):nv * len(plans) + 1]:
             res.add_sample({k: ev[k] for k in ("op", "args", "pre", "arg", "st", "ret", "post", "emb")})
         res.judge(events, verdicts, findings, relevant_fn(prop, cfg))
+        # the Textgrid-level counterparts named by the property
+        if prop in TG_PARTS:
+            from . import checks_tg
+            mops, eops, prefixes = TG_PARTS[prop]
+            rel2 = lambda c: any(c.startswith(p_) for p_ in prefixes) or c in ("times_off_grid", "UNKNOWN_OP")
+            checks_tg.run_part(prop, tier, res, findings, work, mops, eops, rel2,
+                               plans=[("dy", "ascii"), ("dec", "uni")])
         res.rule = ("every transition of the bounded TLC model (N=%d, K<=%d, ops=%s) replayed under embeddings %s, "
                     "plus %d random millisecond-grid vectors and %d live histories; an event is non-trivial if the "
                     "receiver has entries and the call changed something or raised; distinct = distinct "
